@@ -62,9 +62,10 @@ def tiers(tlog=None):
     if tlog and os.path.exists(tlog):
         cur = None
         for l in open(tlog, errors="replace"):
-            m = re.search(r"\[check\] (C\d\d) tier=thorough.*?executions=(\d+).*?wall=([\d.]+)s.*?exhaustive=(\w+)", l)
+            m = re.search(r"(C\d\d) thorough: .*?executions=(\d+) exhaustive=(\w+).*?known=(\d+) wall=([\d.]+)s", l)
             if m:
-                th[m.group(1)] = "%s exec, %s s, exhaustive=%s" % (m.group(2), m.group(3), m.group(4))
+                th[m.group(1)] = "%s exec, %s s, exhaustive=%s%s" % (m.group(2), m.group(5), m.group(3),
+                                                                    ", known finding shown" if m.group(4) != "0" else "")
     print("| id | quick: executions | states / traces | wall | quick runs (harness + bounds) | thorough tier as run |")
     print("|---|---|---|---|---|---|")
     for cid in sorted(CK.CHECKS):
